@@ -37,6 +37,8 @@ theorem deliver_got_inactive (pl : Pid → PState) (c : Cid) (q : Pid) (h : (pl 
 structure Good (s : State) : Prop where
   /-- RW-lock exclusion: a writer excludes every reader -/
   excl : ∀ p, s.writer = some p → s.holding = []
+  /-- a block is held at most once (so releasing it removes it) -/
+  holdNodup : s.holding.Nodup
   /-- a half-done creation belongs to a block that is still held -/
   halfHeld : ∀ x ∈ s.half, x.1 ∈ s.holding
   /-- a container is recorded iff its request was relayed, unless its creation is half done -/
@@ -111,6 +113,7 @@ theorem good_relay_first {s : State} (g : Good s) {b : Bid} {c : Cid}
     (hb : b ∈ s.holding) (hs : c ∉ s.sent) (hst : c ∉ s.store) :
     Good { s with sent := c :: s.sent, half := (b, c) :: s.half, pl := deliver s.pl c } where
   excl := g.excl
+  holdNodup := g.holdNodup
   halfHeld := by
     intro x hx
     rcases List.mem_cons.1 hx with rfl | hx
@@ -181,6 +184,7 @@ theorem good_relay_second {s : State} (g : Good s) {b : Bid} {c : Cid}
     (hs : c ∉ s.sent) (hst : c ∈ s.store) (hm : (b, c) ∈ s.half) :
     Good { s with sent := c :: s.sent, half := s.half.erase (b, c), pl := deliver s.pl c } where
   excl := g.excl
+  holdNodup := g.holdNodup
   halfHeld := by
     intro x hx
     exact g.halfHeld x (List.mem_of_mem_erase hx)
@@ -244,6 +248,7 @@ theorem good_record_first {s : State} (g : Good s) {b : Bid} {c : Cid}
     (hb : b ∈ s.holding) (hst : c ∉ s.store) (hs : c ∉ s.sent) :
     Good { s with store := c :: s.store, half := (b, c) :: s.half } where
   excl := g.excl
+  holdNodup := g.holdNodup
   halfHeld := by
     intro x hx
     rcases List.mem_cons.1 hx with rfl | hx
@@ -294,6 +299,7 @@ theorem good_record_second {s : State} (g : Good s) {b : Bid} {c : Cid}
     (hb : b ∈ s.holding) (hst : c ∉ s.store) (hs : c ∈ s.sent) (hm : (b, c) ∈ s.half) :
     Good { s with store := c :: s.store, half := s.half.erase (b, c) } where
   excl := g.excl
+  holdNodup := g.holdNodup
   halfHeld := by
     intro x hx
     exact g.halfHeld x (List.mem_of_mem_erase hx)
@@ -343,6 +349,7 @@ theorem good_step {s s' : State} {e : Ev} (g : Good s) (h : step? s e = some s')
       injection h with h; subst h
       exact {
         excl := by intro p hp; simp [hc.1] at hp
+        holdNodup := List.nodup_cons.2 ⟨hc.2, g.holdNodup⟩
         halfHeld := by intro x hx; exact List.mem_cons_of_mem _ (g.halfHeld x hx)
         settled := g.settled, storeNodup := g.storeNodup, sentNodup := g.sentNodup
         halfXor := g.halfXor, halfNodup := g.halfNodup
@@ -383,22 +390,25 @@ theorem good_step {s s' : State} {e : Ev} (g : Good s) (h : step? s e = some s')
   | unblock b =>
     simp only [step?] at h
     split at h
-    · rename_i hc
-      injection h with h; subst h
-      exact {
-        excl := by
-          intro p hp
-          have := g.excl p hp
-          simp [this]
-        halfHeld := by
-          intro x hx
-          exact (List.mem_erase_of_ne (hc.2 x hx)).2 (g.halfHeld x hx)
-        settled := g.settled, storeNodup := g.storeNodup, sentNodup := g.sentNodup
-        halfXor := g.halfXor, halfNodup := g.halfNodup
-        inSection := g.inSection, writerBusy := g.writerBusy, snapped := g.snapped
-        gotIff := g.gotIff, snapSent := g.snapSent, snapStore := g.snapStore
-        gotNodup := g.gotNodup, snapNodup := g.snapNodup }
-    · cases h
+    · split at h
+      · rename_i hb hc
+        injection h with h; subst h
+        exact {
+          excl := by
+            intro p hp
+            have := g.excl p hp
+            simp [this]
+          holdNodup := g.holdNodup.sublist List.erase_sublist
+          halfHeld := by
+            intro x hx
+            exact (List.mem_erase_of_ne (hc x hx)).2 (g.halfHeld x hx)
+          settled := g.settled, storeNodup := g.storeNodup, sentNodup := g.sentNodup
+          halfXor := g.halfXor, halfNodup := g.halfNodup
+          inSection := g.inSection, writerBusy := g.writerBusy, snapped := g.snapped
+          gotIff := g.gotIff, snapSent := g.snapSent, snapStore := g.snapStore
+          gotNodup := g.gotNodup, snapNodup := g.snapNodup }
+      · cases h
+    · injection h with h; subst h; exact g
   | syncBegin p =>
     simp only [step?] at h
     split at h
@@ -412,6 +422,7 @@ theorem good_step {s s' : State} {e : Ev} (g : Good s) (h : step? s e = some s')
         intro q hq hqp; subst hqp; simp at hq
       exact {
         excl := by intro q _; exact hh
+        holdNodup := g.holdNodup
         halfHeld := g.halfHeld, settled := g.settled
         storeNodup := g.storeNodup, sentNodup := g.sentNodup
         halfXor := g.halfXor, halfNodup := g.halfNodup
@@ -459,7 +470,7 @@ theorem good_step {s s' : State} {e : Ev} (g : Good s) (h : step? s e = some s')
           q ≠ p := by
         intro q hq hqp; subst hqp; simp at hq
       exact {
-        excl := g.excl, halfHeld := g.halfHeld, settled := g.settled
+        excl := g.excl, holdNodup := g.holdNodup, halfHeld := g.halfHeld, settled := g.settled
         storeNodup := g.storeNodup, sentNodup := g.sentNodup
         halfXor := g.halfXor, halfNodup := g.halfNodup
         inSection := by
@@ -506,7 +517,7 @@ theorem good_step {s s' : State} {e : Ev} (g : Good s) (h : step? s e = some s')
           setP s.pl p { phase := .active, snap := (s.pl p).snap, got := [] } q = s.pl q :=
         fun q hq => setP_other _ _ hq
       exact {
-        excl := g.excl, halfHeld := g.halfHeld, settled := g.settled
+        excl := g.excl, holdNodup := g.holdNodup, halfHeld := g.halfHeld, settled := g.settled
         storeNodup := g.storeNodup, sentNodup := g.sentNodup
         halfXor := g.halfXor, halfNodup := g.halfNodup
         inSection := by
@@ -564,6 +575,7 @@ theorem good_step {s s' : State} {e : Ev} (g : Good s) (h : step? s e = some s')
       injection h with h; subst h
       exact {
         excl := by intro q hq; cases hq
+        holdNodup := g.holdNodup
         halfHeld := g.halfHeld, settled := g.settled
         storeNodup := g.storeNodup, sentNodup := g.sentNodup
         halfXor := g.halfXor, halfNodup := g.halfNodup
@@ -588,6 +600,7 @@ theorem good_step {s s' : State} {e : Ev} (g : Good s) (h : step? s e = some s')
         intro q ph hq hne hqp; subst hqp; simp at hq; exact hne hq.symm
       exact {
         excl := by intro q hq; cases hq
+        holdNodup := g.holdNodup
         halfHeld := g.halfHeld, settled := g.settled
         storeNodup := g.storeNodup, sentNodup := g.sentNodup
         halfXor := g.halfXor, halfNodup := g.halfNodup
@@ -634,7 +647,7 @@ theorem good_step {s s' : State} {e : Ev} (g : Good s) (h : step? s e = some s')
       have notP : ∀ q ph, (setP s.pl p {} q).phase = ph → ph ≠ .idle → q ≠ p := by
         intro q ph hq hne hqp; subst hqp; simp at hq; exact hne hq.symm
       exact {
-        excl := g.excl, halfHeld := g.halfHeld, settled := g.settled
+        excl := g.excl, holdNodup := g.holdNodup, halfHeld := g.halfHeld, settled := g.settled
         storeNodup := g.storeNodup, sentNodup := g.sentNodup
         halfXor := g.halfXor, halfNodup := g.halfNodup
         inSection := by
